@@ -516,17 +516,24 @@ def build_equality(ck, T):
         opts = CX.dataclass_options(ci)
         S.oblige('frame', opts is not None, tag='ConfigState-is-a-dataclass')
         opts = opts or {}
-        S.oblige('frame', opts.get('eq', True) is True, tag='dataclass-keeps-the-generated-__eq__ (no eq=False)')
+        # eq=False (identity equality), hash=False on a field and a hand-written __eq__ are NOT obligations: identity
+        # equality never merges two configurations, a coarser hash only costs cache look-ups, and a hand-written __eq__
+        # is executed by the semantic obligations above ('differ in one setting => not equal').  They are reported.
+        if opts.get('eq', True) is not True:
+            ck.samples.append({'deviation': 'ConfigState is declared with eq=False (identity equality: more recompilation, '
+                                            'no wrong capture)'})
         S.oblige('frame', opts.get('frozen', False) is True and opts.get('unsafe_hash', False) is False,
                  tag='frozen-so-that-the-generated-__hash__-follows-the-compared-fields')
         for f in ci.all_fields():
             S.oblige('frame', f.options.get('compare', True) is True,
                      tag=f'setting-{f.name}-takes-part-in-== (no compare=False)', oracle={'name': 'jit_capture', 'field': f.name})
-            S.oblige('frame', f.options.get('hash', None) in (None, True),
-                     tag=f'setting-{f.name}-takes-part-in-hash (no hash=False)', oracle={'name': 'jit_capture', 'field': f.name})
+            if f.options.get('hash', None) not in (None, True):
+                ck.samples.append({'deviation': f'setting {f.name} is excluded from the hash (hash=False): coarser cache '
+                                                f'buckets, equality still separates configurations'})
         hand = [f'{c.name}.{n}' for c in ci.mro for n in ('__eq__', '__ne__', '__hash__')
                 if n in c.methods or n in c.attrs or n in c.patched]
-        S.oblige('frame', not hand, tag='no-hand-written-__eq__/__ne__/__hash__-on-ConfigState', note=str(hand))
+        if hand:
+            ck.samples.append({'deviation': f'hand-written {hand}: decided by the semantic equality obligations'})
         inv = P.cls(f'{CORE}.InverseOperator')
         fld = [f for f in inv.all_fields() if f.name == 'config']
         S.oblige('frame', len(fld) == 1 and fld[0].static and fld[0].options.get('compare', True) is True,
